@@ -560,7 +560,7 @@ def FqTex : Fn ℚ where
   exp := fun _ => 1
   log := fun _ => 0
   log10 := fun _ => 0
-  pow := fun _ _ => 1
+  pow := fun x y => if y = 2 then x * x else 1
   round0 := roundHalfEvenQ
   round2 := fun x => x
   round3 := fun x => x
@@ -586,15 +586,19 @@ theorem texRoundLaws_FqTex : TexRoundLaws FqTex := by
   have : (0 : ℚ) ≤ ((Rat.floor x : ℤ) : ℚ) := by exact_mod_cast h0
   exact le_trans this (key x).2.2
 
-/-- … and its placeholders (`log = 0`, `pow = 1`) satisfy the two other law structures, so `FqTex` is a
+/-- … and its placeholders (`log = 0`, `pow = 1` except `x ** 2 = x · x`) satisfy the two other law structures, so `FqTex` is a
 computable model of all the laws assumed in this file -/
-theorem texPowLaws_FqTex : TexPowLaws FqTex := ⟨fun _ _ _ => zero_lt_one⟩
+theorem texPowLaws_FqTex : TexPowLaws FqTex := ⟨fun x y hx => by
+  simp only [FqTex]; split_ifs
+  · exact mul_pos hx hx
+  · exact zero_lt_one⟩
 
 theorem texLogPowLaws_FqTex : TexLogPowLaws FqTex :=
   ⟨fun _ _ _ _ => le_refl _, fun x y hx hx1 _ => by
-    show x * x * x ≤ 1
     have h2 : x * x ≤ 1 := by nlinarith
-    nlinarith⟩
+    simp only [FqTex]; split_ifs
+    · nlinarith [mul_pos hx hx]
+    · nlinarith⟩
 
 /-- non-vacuity of the region lemmas: loam (sand 40 %, clay 20 %, organic matter 2.5 %) lies in the
 region, and the whole method evaluates on it (with the placeholder `pow = 1`: `Ksat = 1930·24`) -/
